@@ -332,6 +332,12 @@ def r73_ids_ordinal(ctx):
             if not ok and isinstance(p, ast.Call) and isinstance(p.func, ast.Attribute) and is_self_attr(p.func.value) and p.args and p.args[0] is x \
                     and p.func.attr in ('get', 'pop', 'setdefault', 'add', 'discard', 'remove', '__contains__'):
                 ok = True
+            # moving the id counter forward to an id made elsewhere (`if self._id > counter: counter = self._id`, un-pickling): ids keep
+            # increasing in creation order, which is all their values are used for (the store itself is R1.4's concern)
+            if not ok and isinstance(p, ast.Assign) and p.value is x and len(p.targets) == 1 and isinstance(p.targets[0], ast.Attribute):
+                from .c01 import _monotone_counter_store
+                if _monotone_counter_store(fn, p.targets[0], p.targets[0].attr.replace('_SimEvent', '')):
+                    ok = True
             ctx.ob('R7.3', f'{where_}:{unparse(x)}', ok, sample=f'{where_}: {unparse(x)} used in {type(p).__name__}')
             if not ok:
                 ctx.finding('R7.3', f'{where_}:{unparse(x)}:{type(p).__name__}', oc, x,
